@@ -323,12 +323,20 @@ class LocationTable:
 
         Temporarily solution following ETSI EN 302 636-4-1 V1.4.1 (2020-01). Section 8.1.3
         """
-        current_time = TST.set_in_normal_timestamp_seconds(
-            int(TimeService.time()))
+        current_time = TST.set_in_normal_timestamp_milliseconds(
+            round(TimeService.time() * 1000))
+        lifetime_ms = self.mib.itsGnLifetimeLocTE * 1000
         with self.loc_t_lock:
             self.loc_t = {
                 gn: entry for gn, entry in self.loc_t.items()
-                if (current_time - entry.position_vector.tst) <= self.mib.itsGnLifetimeLocTE * 1000
+                if (
+                    # placeholder of a location-service lookup still in progress
+                    entry.ls_pending
+                    if not entry.position_vector_received
+                    # a timestamp ahead of the local clock (sender clock skew) has age 0
+                    else entry.position_vector.tst > current_time
+                    or (current_time - entry.position_vector.tst) <= lifetime_ms
+                )
             }
 
     def new_shb_packet(
